@@ -49,6 +49,7 @@ Definition obs_c17 (st : c17st) (op : value) (o : value) : bool * c17st :=
           else (true, st)
       | VL [VI 4] =>
           if k_alive st then ((ex =? 0), {| k_alive := false; k_hname := k_hname st; k_data := k_data st |}) else (true, st)
+      | VL [VI 5; VB _] => if k_alive st then (file_ok st, st) else (true, st)     (* the application is renamed: the file stays where it was advertised *)
       | _ => (true, st)
       end
   | _ => (false, st)
